@@ -71,7 +71,9 @@ func mod11(num int64) int64 {
 	}
 	sum = sum % 11
 	if sum > 9 {
-		sum = 0
+		// a remainder of 10 cannot be represented by a single check
+		// digit: such numbers are never issued and are always invalid
+		return -1
 	}
 	return sum
 }
